@@ -1,0 +1,164 @@
+// Copyright 2024 Kelvin Clement Mwinuka
+//
+// Licensed under the Apache License, Version 2.0 (the "License");
+// you may not use this file except in compliance with the License.
+// You may obtain a copy of the License at
+//
+//      http://www.apache.org/licenses/LICENSE-2.0
+//
+// Unless required by applicable law or agreed to in writing, software
+// distributed under the License is distributed on an "AS IS" BASIS,
+// WITHOUT WARRANTIES OR CONDITIONS OF ANY KIND, either express or implied.
+// See the License for the specific language governing permissions and
+// limitations under the License.
+
+package internal
+
+import (
+	"math"
+	"strconv"
+	"strings"
+	"time"
+)
+
+// Largest relative times the handlers convert to a time.Duration without overflow
+// (time.Duration(n) * time.Second and time.Duration(n) * time.Millisecond).
+const (
+	maxRelativeSeconds      = math.MaxInt64 / int64(time.Second)
+	maxRelativeMilliseconds = math.MaxInt64 / int64(time.Millisecond)
+)
+
+// absoluteMilliseconds returns the unix time in milliseconds that lies n seconds (n milliseconds when
+// milli is set) after nowMs. It fails when s is not an integer or when the handler's own conversion to
+// time.Duration, or the sum, would overflow.
+func absoluteMilliseconds(s string, milli bool, nowMs int64) (int64, bool) {
+	n, err := strconv.ParseInt(s, 10, 64)
+	if err != nil {
+		return 0, false
+	}
+	if milli {
+		if n > maxRelativeMilliseconds || n < -maxRelativeMilliseconds {
+			return 0, false
+		}
+	} else {
+		if n > maxRelativeSeconds || n < -maxRelativeSeconds {
+			return 0, false
+		}
+		n *= 1000
+	}
+	if (n > 0 && nowMs > math.MaxInt64-n) || (n < 0 && nowMs < math.MinInt64-n) {
+		return 0, false
+	}
+	return nowMs + n, true
+}
+
+// absoluteSetOptions rewrites the option list of SET (what follows the value). It follows
+// getSetCommandOptions: any list that function refuses is reported as not rewritable.
+func absoluteSetOptions(opts []string, nowMs int64) ([]string, bool) {
+	res := make([]string, 0, len(opts))
+	exists, expiry, changed := false, false, false
+	for i := 0; i < len(opts); i++ {
+		switch strings.ToLower(opts[i]) {
+		case "get":
+			res = append(res, opts[i])
+		case "nx", "xx":
+			if exists {
+				return nil, false
+			}
+			exists = true
+			res = append(res, opts[i])
+		case "ex", "px":
+			if expiry || i+1 >= len(opts) {
+				return nil, false
+			}
+			ms, ok := absoluteMilliseconds(opts[i+1], strings.ToLower(opts[i]) == "px", nowMs)
+			if !ok {
+				return nil, false
+			}
+			expiry, changed = true, true
+			res = append(res, "PXAT", strconv.FormatInt(ms, 10))
+			i++
+		case "exat", "pxat":
+			if expiry || i+1 >= len(opts) {
+				return nil, false
+			}
+			if _, err := strconv.ParseInt(opts[i+1], 10, 64); err != nil {
+				return nil, false
+			}
+			expiry = true
+			res = append(res, opts[i], opts[i+1])
+			i++
+		default:
+			return nil, false
+		}
+	}
+	return res, changed
+}
+
+// AbsoluteExpiryForm returns the command whose effect does not depend on the clock of whoever executes
+// it and which, executed when the clock shows now, does what cmd does: a relative expiry is replaced by
+// the absolute time it denotes at now,
+//
+//	SET key value [NX|XX] [GET] EX seconds | PX milliseconds  ->  SET key value [NX|XX] [GET] PXAT unix-ms
+//	EXPIRE key seconds [NX|XX|GT|LT]                          ->  PEXPIREAT key unix-ms [NX|XX|GT|LT]
+//	PEXPIRE key milliseconds [NX|XX|GT|LT]                    ->  PEXPIREAT key unix-ms [NX|XX|GT|LT]
+//	GETEX key EX seconds | PX milliseconds                    ->  GETEX key PXAT unix-ms
+//
+// with every other argument in its place. This is the form to write to the append-only log and to the
+// raft log: a command replayed after a restart, or applied by another node, must not start the
+// expiry period again on its own clock.
+//
+// Any other command is returned as it is (the very same slice), and so is one of the commands above that
+// its handler would refuse (wrong number of arguments, a time that is not an integer, an unknown or
+// repeated option) or whose time is so large that the handler's conversion to time.Duration overflows.
+// cmd is never modified.
+func AbsoluteExpiryForm(cmd []string, now time.Time) []string {
+	if len(cmd) < 3 {
+		return cmd
+	}
+	nowMs := now.UnixMilli()
+	switch name := strings.ToLower(cmd[0]); name {
+	case "expire", "pexpire":
+		if len(cmd) > 4 {
+			return cmd
+		}
+		if len(cmd) == 4 {
+			switch strings.ToLower(cmd[3]) {
+			case "nx", "xx", "gt", "lt":
+			default:
+				return cmd
+			}
+		}
+		ms, ok := absoluteMilliseconds(cmd[2], name == "pexpire", nowMs)
+		if !ok {
+			return cmd
+		}
+		res := append(make([]string, 0, len(cmd)), "PEXPIREAT", cmd[1], strconv.FormatInt(ms, 10))
+		return append(res, cmd[3:]...)
+
+	case "getex":
+		if len(cmd) != 4 {
+			return cmd
+		}
+		unit := strings.ToUpper(cmd[2])
+		if unit != "EX" && unit != "PX" {
+			return cmd
+		}
+		ms, ok := absoluteMilliseconds(cmd[3], unit == "PX", nowMs)
+		if !ok {
+			return cmd
+		}
+		return []string{cmd[0], cmd[1], "PXAT", strconv.FormatInt(ms, 10)}
+
+	case "set":
+		if len(cmd) > 7 {
+			return cmd
+		}
+		opts, changed := absoluteSetOptions(cmd[3:], nowMs)
+		if !changed {
+			return cmd
+		}
+		return append(append(make([]string, 0, len(cmd)), cmd[:3]...), opts...)
+	}
+	return cmd
+}
